@@ -40,6 +40,8 @@ class Workload:
                  big=True, listen_late=False):
         self.w = w
         self.tape = tape
+        if w.opts.get("_tier") == "thorough":
+            max_subs, max_ops = max_subs + 2, max_ops * 3
         self.scripts = {"A": [], "B": []}
         self.pc = {"A": 0, "B": 0}
         self.handles = {"A": [], "B": []}     # connect() records
@@ -160,6 +162,8 @@ class L2Faults:
     def __init__(self, w, tape, budget, kinds=("cut", "half_open")):
         self.w = w
         self.tape = tape
+        if w.opts.get("_tier") == "thorough" and budget:
+            budget = budget * 2 + tape.choose(4, "fb_thorough")
         self.budget = budget
         self.kinds = kinds
         self.fired = []
